@@ -572,8 +572,8 @@ PROPS = {
     },
     "C20": {
         "lean_modules": ["Dbg.Props.C20"],
-        "theorems": ["Export.gfa_no_duplicate", "Export.gfa_links_complete_ginv", "Export.edges_ports_nodup", "Export.gfa_link_sound", "Export.gfa_links_complete", "Export.gfa_segment", "Export.mem_allLinks"],
-        "partial": ["JSON well-formedness (json_render) and serde round trips: decided by execution (JSON text compared verbatim with the model and parsed by serde_json; round trips compared). gfa_links_complete_ginv assumes the node-level invariant GInv (decidable, evaluated on pipeline graphs in C03)"],
+        "theorems": ["Export.gfa_complete_of_compress", "Export.gfa_no_duplicate", "Export.gfa_links_complete_ginv", "Export.edges_ports_nodup", "Export.gfa_link_sound", "Export.gfa_links_complete", "Export.gfa_segment", "Export.mem_allLinks"],
+        "partial": ["JSON well-formedness (json_render) and serde round trips: decided by execution (JSON text compared verbatim with the model and parsed by serde_json; round trips compared). gfa_links_complete_ginv assumes the node-level invariant GInv, proved for the output of compress_kmers (gfa_complete_of_compress); for hand-built / re-compressed graphs it is a decidable hypothesis"],
         "n_quick": 3000, "n_thorough": 200000,
         "nontrivial": lambda toks, impl: impl != "panic" and (toks[1] != "export" or toks[4].count(",") >= 1), "tags": _c20_tags,
         "shrink": _c20_shrink,
